@@ -19,7 +19,7 @@ import types
 
 from . import sym
 from .sym import B, EngineLimit, SymBool, SymBytes, SymInt, Unsupported
-from .symstr import SymDecStr, SymStr
+from .symstr import SymDecStr, SymStr, SymText
 
 STATS = {"fstr": 0, "call": 0, "getitem": 0, "setitem": 0, "in": 0, "files": 0}
 METHODS = {
@@ -45,16 +45,42 @@ def _any_sym(args, kw=()):
     return False
 
 
+def _num_piece(v, spec):
+    """piece for an integer formatted with '', 'd', '0Nd' (None if the spec is something else)"""
+    import re
+
+    m = re.fullmatch(r"(?:0(\d+))?d?", spec or "")
+    if m is None:
+        return None
+    width = int(m.group(1)) if m.group(1) else 0
+    if width:
+        # zero padding to `width` digits is only a fixed-width field for 0 <= v < 10**width
+        if not (v >= 0 and v < 10**width):
+            raise Unsupported("formatted integer outside its field width")
+    return ("num", v, width)
+
+
 def vf_fstr(*parts):
     symbolic_str = False
+    structured = False
     out = []
     for p in parts:
         if type(p) is tuple:
             v, conv, spec = p
+            if isinstance(v, SymText) and conv in (-1, 115) and not spec:
+                structured = True
+                out.append(v)
+                continue
             if isinstance(v, (SymStr, SymDecStr)) and conv in (-1, 115) and not spec:
                 symbolic_str = True
                 out.append(v)
                 continue
+            if getattr(v, "_vf_z", False) and conv == -1:
+                piece = _num_piece(v, spec)
+                if piece is not None:
+                    structured = True
+                    out.append(SymText([piece]))
+                    continue
             if _s(v):
                 out.append("<sym>")  # formatting of symbolic values is not modelled (error messages)
                 continue
@@ -67,6 +93,11 @@ def vf_fstr(*parts):
             out.append(format(v, spec))
         else:
             out.append(p)
+    if structured:
+        r = SymText([])
+        for x in out:
+            r = r + x
+        return r
     if symbolic_str:
         r = SymStr([])
         for x in out:
